@@ -18,7 +18,8 @@ RULE = (
     "Rules: construct; mutate a shared argument in place (Point.move, p.x = v, "
     "p[i] = v, vec[i] = v, move of a shared polygon, move of any pool Segment / HalfLine / polygon); a burst of membership queries of every pool point on each new 7-9-face body; run one of the queries of the statement (intersection, in, "
     "distance, angle, parallel, orthogonal, ==, hash, repr, length, area, volume) on an ordered pair of pool "
-    "objects; deepcopy an object and mutate the copy or the original. Oracle: the public-attribute snapshot of both "
+    "objects, and bursts of intersection / membership queries among a Segment, the Lines and the HalfLines through the same two pool points; "
+    "deepcopy an object and mutate the copy or the original. Oracle: the public-attribute snapshot of both "
     "operands is identical before and after every query; the query's answer on the pool objects equals its answer "
     "on objects freshly built from the exact model (so it cannot depend on earlier queries); after mutating a "
     "constructor argument the snapshots and measures of all composites built from it are unchanged, they still denote "
@@ -284,6 +285,8 @@ class Executor(object):
             self.mutate(name, a)
         elif name == "query":
             self.query(a)
+        elif name == "collinear":
+            self.collinear_burst(a)
         elif name == "copy":
             self.deepcopy(a)
         else:
@@ -386,10 +389,39 @@ class Executor(object):
         return B.build(e.desc)
 
     def query(self, a):
-        G = lib()
         pool = self.all_entries()
         ea, eb = pool[a[1] % len(pool)], pool[a[2] % len(pool)]
         qn = ("intersection", "in", "distance", "angle", "parallel", "orthogonal", "eq", "hash", "repr", "measures")[a[0] % 10]
+        self.query_pair(ea, eb, qn)
+
+    def collinear_burst(self, a):
+        """a Segment, the two Lines and the two HalfLines through the same two pool points (one carrier, both
+        directions), queried against each other in every order: the operands lie on each other exactly, which is
+        where an implementation hands back, re-orients or reuses an operand"""
+        G = lib()
+        p, q = self.P(a[0]), self.P(a[1])
+        if tuple(p.desc[1]) == tuple(q.desc[1]):
+            return
+        d = X.sub(q.desc[1], p.desc[1])
+        nd = X.mul(F(-1), d)
+        es = [
+            Entry("S", self.guard("Segment(P,P)", lambda: G.Segment(p.obj, q.obj)), ("S", p.desc[1], q.desc[1]), (p, q), label="Segment(Point, Point)"),
+            Entry("L", self.guard("Line(P,P)", lambda: G.Line(p.obj, q.obj)), ("L", p.desc[1], d), (p, q), label="Line(Point, Point)"),
+            Entry("L", self.guard("Line(P,P)", lambda: G.Line(q.obj, p.obj)), ("L", q.desc[1], nd), (p, q), label="Line(Point, Point)"),
+            Entry("H", self.guard("HalfLine(P,P)", lambda: G.HalfLine(p.obj, q.obj)), ("H", p.desc[1], d), (p, q), label="HalfLine(Point, Point)"),
+            Entry("H", self.guard("HalfLine(P,P)", lambda: G.HalfLine(q.obj, p.obj)), ("H", q.desc[1], nd), (p, q), label="HalfLine(Point, Point)"),
+        ]
+        for i, ea in enumerate(es):
+            for j, eb in enumerate(es):
+                if i != j:
+                    self.query_pair(ea, eb, "intersection")
+                    if ea.kind in IN_SUPPORT and eb.kind in IN_SUPPORT[ea.kind]:
+                        self.query_pair(ea, eb, "in")
+        for e in es[: 1 + a[2] % 3]:
+            self.add(e)
+
+    def query_pair(self, ea, eb, qn):
+        G = lib()
         ka, kb = ea.kind, eb.kind
         if qn == "in" and not (ka in IN_SUPPORT and kb in IN_SUPPORT[ka]):
             qn = "intersection"
@@ -581,6 +613,7 @@ def machine(ctx):
         "mut_objmove": (io, st.integers(0, len(MOVES) - 1)),
         "mkneg": (io,),
         "mkbody": (io, io, io),
+        "collinear": (ip, ip, io),
         "mksub": (io, io),
         "query": (st.integers(0, 9), io, io),
         "query2": (st.integers(0, 9), io, io),
